@@ -46,6 +46,12 @@ Theorem c24_model_matches_source_shape :
 Proof. split; reflexivity. Qed.
 Print Assumptions c24_model_matches_source_shape.
 
+(* The pool is the only mutable object with static storage duration that has not been reviewed as
+   harmless: the list regenerated from the source is exactly the reviewed one. *)
+Theorem c24_shared_state_reviewed : Gen_PoolSync.shared_state = reviewed_shared_state.
+Proof. reflexivity. Qed.
+Print Assumptions c24_shared_state_reviewed.
+
 Example c24_nonvacuous_locked :
   let s := run true (race_schedule ++ [1; 1; 1]) (init race_progs) in
   t_owned (thr s 0) = [0] /\ t_owned (thr s 1) = [1] /\ t_pc (thr s 1) = Idle /\ free s = [] /\ lock s = None.
